@@ -16,9 +16,9 @@ SPEC = {
     "modules": ["HC.Props.C02"],
     "extracted": ["Guards", "Consts", "ReqGlue"],
     "technique": "Lean 4 transducer theorem (events handed to the protocol = specification of the app's messages, for every status/header list/chunking, by induction over chunks) + suppress_body and trailers gates + head-composition laws; tied by end-to-end runs on both workers parsed by independent h11/h2 clients",
-    "level_text": "Proved in Lean for every final status, every header list that validates and every chunking (any number of chunks, empty ones included): the protocol layer is given exactly one response head with the application's headers in order, the non-empty chunks in order (none when HEAD / 1xx / 204 / 304 — the extracted suppress_body, characterised), then end-of-body, one access record and stream-closed; trailers only on HTTP/2+ with te: trailers; the HTTP/1 head is app headers ++ server headers (date/server/alt-svc only) ++ connection: close at the request maximum; the HTTP/2 head is :status ++ app ++ server headers.  End-to-end on every run: scripted applications (status x headers x chunking incl. chunks larger than the 16 KiB frame and 64 KiB window) on HTTP/1.0, 1.1 and 2, both workers, three client paces; independent h11/h2 client parsers recover status, headers, body and end-of-message, compared with the monitor and with the Lean-predicted view.",
+    "level_text": "Proved in Lean for every final status, every header list that validates and every chunking (any number of chunks, empty ones included): the protocol layer is given exactly one response head with the application's headers in order, the non-empty chunks in order (none when HEAD / 1xx / 204 / 304 — the extracted suppress_body, characterised), then end-of-body, one access record and stream-closed; trailers only on HTTP/2+ with te: trailers; the HTTP/1 head is app headers ++ server headers (date/server/alt-svc only) ++ connection: close at the request maximum; the HTTP/2 head is :status ++ app ++ server headers; a WINDOW_UPDATE / INITIAL_WINDOW_SIZE change unblocks every buffered stream it concerns (tests extracted from _window_updated: connection-level = all); HTTP/2 trailers are handed to the protocol iff HTTP/2+ and te: trailers, kept until the body is out and sent as the one frame that ends the stream (exactly one END_STREAM-carrying h2 call, extracted from _end_stream).  End-to-end on every run: scripted applications (status x headers x chunking incl. chunks larger than the 16 KiB frame and 64 KiB window) on HTTP/1.0, 1.1 and 2, both workers; HTTP/2 client shapes: stream windows smaller / larger than the connection window, frame size, 1-3 concurrent streams, seven acknowledgement styles (automatic, paused, late, explicit connection/stream WINDOW_UPDATEs in either order, connection only); trailers with and without te: trailers; independent h11/h2 client parsers recover status, headers, body and end-of-message, compared with the monitor and with the Lean-predicted view.",
     "level_note": "Trusted: Lean kernel; stream model HC/Stream/Http.lean and head functions HC/Proto/Heads.lean (tied by differential runs); legal HTTP/1 framing and HTTP/2 framing/flow control are h11's and h2's (library behaviour, observed only through the independent client parsers, which raise on violations); 1xx as a final status is outside the quantifier.",
-    "rule": "status x method x header-variant x chunking-class x protocol x pace x worker; distinct = distinct (protocol, method, status class, header variant, chunking class, pace, worker); non-trivial = a body is sent or must be suppressed",
+    "rule": "status x method x header-variant x chunking-class x protocol x pace x worker x (HTTP/2: initial window, frame size, concurrent streams, trailers); distinct = distinct (protocol, method, status class, header variant, chunking class, pace, worker); non-trivial = a body is sent or must be suppressed",
     "trusted": ["h11 / h2 client-side parsers as oracles for what a client sees"],
     "partial": ["framing legality is delegated to h11/h2 (LibM); the theorem stops at the events handed to them"],
     "assumptions": ["applications send lower-case header names (ASGI requirement) and a content-length that matches the body when they send one"],
